@@ -146,6 +146,7 @@ type X struct {
 	callCnt  map[string]int
 	nameCnt  map[string]int
 	opqNils  map[string]string
+	junkAuction Val
 	sorts    map[string]string
 	sums     map[string]*SumFn
 	depth    int
@@ -205,7 +206,13 @@ func idWrap(s string) string { return s }
 // inAgg is true below an array layer (no object identity available there).
 func (x *X) mk(s *State, prefix string, t types.Type, wrap wrapFn, inAgg bool) Val {
 	if so := scalarSort(t); so != "" {
-		return Sc{T: x.sym(prefix, wrap(smtSort(so))), Sort: wrap(smtSort(so))}
+		sc := Sc{T: x.sym(prefix, wrap(smtSort(so))), Sort: wrap(smtSort(so))}
+		if !inAgg && so == "Int" {
+			if _, isBasic := t.Underlying().(*types.Basic); isBasic {
+				s.assume(rangeFact(sc.T, t)) // machine integers are in their type's range
+			}
+		}
+		return sc
 	}
 	n := namedOf(t)
 	if strings.HasPrefix(n, "cosmossdk.io/collections.") {
@@ -701,7 +708,8 @@ func (x *X) iterHeader(r *ssa.Range) *ssa.BasicBlock {
 func (x *X) havocLike(s *State, prefix string, t types.Type, cur Val) Val {
 	switch y := cur.(type) {
 	case Sc:
-		nv := Sc{T: x.sym(prefix, y.Sort), Sort: y.Sort}
+		so := x.sortOfTerm(y.T, y.Sort)
+		nv := Sc{T: x.sym(prefix, so), Sort: so}
 		if t != nil {
 			if f := rangeFact(nv.T, t); f != "true" && scalarSort(t) == "Int" && namedOf(t) == "" {
 				s.assume(f)
@@ -715,8 +723,11 @@ func (x *X) havocLike(s *State, prefix string, t types.Type, cur Val) Val {
 		}
 		return r
 	case Sl:
-		l := x.sym(prefix+".len", "Int")
-		s.assume(fmt.Sprintf("(and (<= 0 %s) (< %s 281474976710656))", l, l))
+		lso := x.sortOfTerm(y.Len, "Int")
+		l := x.sym(prefix+".len", lso)
+		if lso == "Int" {
+			s.assume(fmt.Sprintf("(and (<= 0 %s) (< %s 281474976710656))", l, l))
+		}
 		el := x.slElem(s, y)
 		var nel Val
 		if el != nil {
